@@ -7,8 +7,10 @@ injected transport / TLS-file faults are enumerated around the accepted form."""
 import copy
 import json
 import os
+import re
 import tempfile
 import urllib.parse
+import zlib
 
 import requests
 import requests_mock
@@ -30,13 +32,23 @@ RULE = ('cases = reply body from an alphabet around the accepted form (True, "Tr
         'file is deleted or (re-)created, a remote_ssl_* option is pointed at another (present / missing) file or cleared, transport faults come '
         'and go (ok, fault, ok ... and fault, ok, fault ...; enumerated for each file and each transport fault, plus random ones); every call is '
         'judged by the same per-call oracle from the state of the world at that call alone: configured file missing now => RuntimeError and no '
-        'request, transport fault now => raises, otherwise one correct request and the decision by the body.')
+        'request, transport fault now => raises, otherwise one correct request and the decision by the body. '
+        'Stratum K (keys shared by target and credentials; woven into B, R, S and overlap): the target and the credentials - a dict or an '
+        'oslo.context RequestContext, whose policy values always carry project_id, user_id, domain_id, roles ... - have keys in common with '
+        'DIFFERENT values, and the URL placeholders range over keys found in the target only, in both, and (rarely) in the credentials only; '
+        'the recorded request must have gone to the template filled from the TARGET (the overlap stub server compares every URL segment with '
+        'the target that the payload carries); a placeholder that the target cannot fill is left unconstrained.')
 ASSUMPTIONS = ['bodies with unbalanced or repeated surrounding quotes ("True, True", ""True"") are driven and recorded but '
                'left unconstrained: "ignoring surrounding double quotes" can be read either way',
                'running as root, "file exists but unreadable" cannot be produced (os.access always succeeds): not simulated',
                'opaque objects are generated at the top level of the target only',
                'in the sequence stratum remote_ssl_verify_server_crt stays True (whether a CA file that is configured but not used for '
-               'verification must exist is not said by the statement) and an option that is cleared is taken as "no file configured"']
+               'verification must exist is not said by the statement) and an option that is cleared is taken as "no file configured"',
+               'a URL placeholder whose key is not in the target (for instance a key of the credentials only) cannot be "filled from the target": '
+               'what the call does then (the library raises KeyError) is driven and recorded but left unconstrained, except that the caller\'s target '
+               'must be left alone',
+               'the credentials of a RequestContext are taken to be its to_policy_values(): each of them must reach the server unchanged; further '
+               'keys next to them are left unconstrained']
 LEVEL_TEXT = ('The body/status/content-type/scheme product and every listed fault are enumerated completely at depth 0 and '
               'sampled at depth; the recorded request is checked on every call. Fault enumeration is the level: the property is '
               'about what happens for each reply and each transport failure.')
@@ -45,7 +57,10 @@ PLAN = {'quick': dict(shards=4, wall=120), 'thorough': dict(shards=16, wall=400)
 MIN = {'overlapping_evaluations': 200, 'evaluations': 800, 'requests_recorded': 500, 'deny_bodies': 300, 'allow_bodies': 50, 'faults_injected': 100,
        'tls_file_faults': 20, 'content_type_changes_on_living_enforcer': 100, 'requests_under_debug_logging': 200, 'nested_opaque_targets': 50,
        'sequence_calls': 400, 'sequence_tls_file_missing_after_a_sent_request': 60, 'sequence_clean_call_after_a_fault': 100,
-       'sequence_option_repoints': 40, 'sequence_tls_file_faults': 80, 'sequence_requests_recorded': 150}
+       'sequence_option_repoints': 40, 'sequence_tls_file_faults': 80, 'sequence_requests_recorded': 150,
+       'url_placeholders_in_target_and_credentials': 400, 'url_placeholders_shared_with_context_credentials': 200,
+       'sequence_url_placeholders_in_target_and_credentials': 80, 'sequence_url_placeholders_shared_with_context_credentials': 40,
+       'overlap_requests_with_url_keys_shared_by_target_and_credentials': 1000, 'url_placeholders_not_in_target': 30}
 ANCHORS = ['oslo_policy._external:HttpCheck.__call__', 'oslo_policy._external:HttpsCheck.__call__',
            'oslo_policy._external:HttpCheck._construct_payload', 'oslo_policy.policy:Enforcer.enforce']
 REQUIRED_ANCHORS = ['oslo_policy._external:HttpCheck.__call__', 'oslo_policy._external:HttpsCheck.__call__']
@@ -89,6 +104,95 @@ class Opaque:
 
 WRAPS = ['not', 'and-role', 'or-role', 'true-and', 'false-or', 'alias', 'not-not', 'and-true-after']
 
+# ---- keys that the target and the credentials have in common (stratum K) ------------------------------------------
+# "filled from the target": nothing says that a key of the target is not a key of the credentials as well - project_id,
+# user_id, domain_id, roles are in both in every service, and the policy values of a RequestContext always carry them.
+PLACEHOLDER = re.compile(r'%\(([^)]*)\)s')
+T_VALUES = {'project_id': 'p-target', 'user_id': 'u-owner', 'domain_id': 'd-target', 'user_domain_id': 'ud-target',
+            'project_domain_id': 'pd-target', 'roles': ['owner', 'reader'], 'is_admin_project': False, 'service_user_id': 'svc-target',
+            'system_scope': 'scope-target', 'service_roles': ['svc-owner'], 'owner': 'o-target', 'x-é': 'ü-t'}
+C_VALUES = {'project_id': 'p-caller', 'user_id': 'u-caller', 'domain_id': 'd-caller', 'user_domain_id': 'ud-caller',
+            'project_domain_id': 'pd-caller', 'name': 'caller-name', 'id': 99, 'flag': False, 'owner': 'o-caller', 'x-é': 'ü-c',
+            'tenant': 't-caller', 'user_name': 'caller'}
+BASE_TARGET_KEYS = ('name', 'id', 'flag')                      # make_target always has them
+CTX_KWARGS = ('project_id', 'user_id', 'domain_id', 'user_domain_id', 'project_domain_id')
+DICT_BOTH = ['project_id', 'user_id', 'domain_id', 'roles', 'name', 'id', 'flag', 'owner', 'x-é', 'user_domain_id']
+CTX_BOTH = ['project_id', 'user_id', 'domain_id', 'roles', 'user_domain_id', 'project_domain_id', 'is_admin_project',
+            'service_user_id', 'system_scope', 'service_roles']
+DICT_CONLY = ['tenant', 'user_name']                           # keys of the credentials only
+CTX_CONLY = ['service_project_id', 'service_user_domain_id']   # policy values of every RequestContext; never put into the target
+
+
+def share(form, keys, path, conly=()):
+    """Case fields for a target and credentials (`form`: a dict / a RequestContext) that both have `keys`, with different
+    values; `conly`: keys that only the credentials get."""
+    tshare = {k: copy.deepcopy(T_VALUES[k]) for k in keys if k not in BASE_TARGET_KEYS}
+    cshare = {k: copy.deepcopy(C_VALUES[k]) for k in list(keys) + list(conly)
+              if k in C_VALUES and (form == 'dict' or k in CTX_KWARGS)}
+    return dict(cform=form, tshare=tshare, cshare=cshare, path=path)
+
+
+def ph(k):
+    return '%(' + k + ')s'
+
+
+PATH_SHAPES = [lambda ks: '/' + '/'.join(ph(k) for k in ks) + '/check',
+               lambda ks: '/v1/' + ph(ks[0]) + ('?' + '&'.join('q%d=%s' % (i, ph(k)) for i, k in enumerate(ks[1:])) if ks[1:] else ''),
+               lambda ks: ':8080/p/' + '-'.join(ph(k) for k in ks),
+               lambda ks: '/projects/' + ph(ks[0]) + '/' + '/'.join(ph(k) for k in ks[1:] + ['name'])]
+
+
+def gen_share(rnd, conly_p=0.08):
+    """Random case fields of stratum K: 1-3 URL placeholders over keys that target and credentials share, sometimes one more over
+    a key of the target alone, rarely one over a key of the credentials alone; sometimes more shared keys that the URL does not use."""
+    form = rnd.choice(['dict', 'context'])
+    pool = DICT_BOTH if form == 'dict' else CTX_BOTH
+    both = rnd.sample(pool, rnd.randint(1, 3))
+    unused = rnd.sample(pool, rnd.randint(0, 2))
+    ks = list(both)
+    if rnd.random() < 0.4:
+        ks.insert(rnd.randrange(len(ks) + 1), rnd.choice(BASE_TARGET_KEYS))      # shared or not, as `both` has it
+    conly = []
+    if rnd.random() < conly_p:
+        conly = [rnd.choice(DICT_CONLY if form == 'dict' else CTX_CONLY)]
+        ks.insert(rnd.randrange(len(ks) + 1), conly[0])
+    return share(form, both + [k for k in unused if k not in both], rnd.choice(PATH_SHAPES)(ks), conly)
+
+
+# the product stratum's path templates: the module's original one (fields absent), and shared keys
+B_SHARES = [None, None,
+            share('dict', ['name', 'id'], '/%(name)s/check'),
+            share('dict', ['project_id'], '/projects/%(project_id)s/%(name)s'),
+            share('context', ['project_id', 'user_id'], '/projects/%(project_id)s/%(name)s'),
+            share('context', ['user_id', 'domain_id', 'is_admin_project'], '/%(user_id)s/%(domain_id)s/check?admin=%(is_admin_project)s'),
+            share('dict', ['roles', 'id', 'owner', 'domain_id'], '/v1/%(id)s/%(owner)s?roles=%(roles)s'),
+            share('context', ['roles', 'project_domain_id', 'system_scope'], ':8080/%(project_domain_id)s/%(roles)s')]
+
+
+def b_share(idx):
+    return B_SHARES[zlib.crc32(b'%d' % idx) % len(B_SHARES)]
+
+
+def make_creds(case, roles):
+    """-> (what is passed to enforce, the credentials the server must receive, True when further keys may come with them)."""
+    base = {'roles': list(roles), 'user_id': 'u1', 'project_id': 'p'}
+    extra = copy.deepcopy(case.get('cshare') or {})
+    if case.get('cform') == 'context':
+        from oslo_context import context
+        obj = context.RequestContext(**dict(base, **extra))
+        return obj, json.loads(json.dumps(dict(obj.to_policy_values()))), True
+    creds = dict(base, nested={'a': [1, 2]})
+    creds.update(extra)
+    return creds, json.loads(json.dumps(creds)), False
+
+
+def fill_from_target(template, target):
+    """The URL the request must go to, or None when the target lacks a key (the statement is silent then)."""
+    try:
+        return template % target
+    except KeyError:
+        return None
+
 
 def build_rules(case):
     """Rules that place the remote check at the requested depth; the check is always evaluated (never short-circuited).
@@ -127,6 +231,7 @@ def build_rules(case):
 
 def make_target(case, objs):
     t = {'name': 'n1', 'id': 7, 'nested': {'k': [1, {'z': None}], 'é': 'ü'}, 'flag': True, 'none': None}
+    t.update(copy.deepcopy(case.get('tshare') or {}))       # keys that the credentials have as well (other values)
     if case.get('secrets'):
         # keys that look like secrets: they belong to the target and must reach the server unchanged
         t.update({'password': 'pw-1', 'auth_token': 'tok', 'nested2': {'secret_key': 's3', 'list': [{'admin_pass': 'x'}]}})
@@ -155,7 +260,7 @@ def snapshot(x):
 
 
 def judge_call(ctx, case, call, fault, tls_fault, got, exc, reqs, target, creds_sent, expected_url, ref, rules, roles,
-               pfx='', extra=None):
+               pfx='', extra=None, creds_open=False):
     """The per-call oracle: what one evaluation of a rule with a remote check must have done, given the reply / fault that
     was injected for it.  `case` is what gets reported (replayable), `call` carries the settings of this one call (content
     type, policy name, body, status); in the one-call strata they are the same dict.  `pfx` keeps the counters of the
@@ -195,6 +300,12 @@ def judge_call(ctx, case, call, fault, tls_fault, got, exc, reqs, target, creds_
     if req.url != requests.Request('POST', expected_url).prepare().url:
         ctx.violation('request-to-wrong-url', case, D({'expected': expected_url, 'observed': req.url}))
         return True
+    if any(k in target and k in creds_sent and '%s' % (target[k],) != '%s' % (creds_sent[k],)
+           for k in PLACEHOLDER.findall(case.get('path') or '')):
+        # the URL names a key that the credentials have too, with another value: it was filled from the target
+        ctx.count(pfx + 'url_placeholders_in_target_and_credentials')
+        if creds_open:
+            ctx.count(pfx + 'url_placeholders_shared_with_context_credentials')
     try:
         if call['ctype'] == 'application/json':
             sent = json.loads(req.body if isinstance(req.body, str) else req.body.decode())
@@ -217,7 +328,10 @@ def judge_call(ctx, case, call, fault, tls_fault, got, exc, reqs, target, creds_
     if sent.get('target') != want_target:
         problems['target'] = [sent.get('target'), want_target]
     sc = dict(sent.get('credentials') or {})
-    if sc != want_creds:
+    if creds_open and sc != want_creds and all(k in sc and sc[k] == v for k, v in want_creds.items()):
+        # a RequestContext: all its policy values arrived; the statement does not speak about keys next to them
+        ctx.unconstrained('keys-next-to-the-policy-values-of-a-context')
+    elif sc != want_creds:
         problems['credentials'] = [sent.get('credentials'), want_creds]
     if problems or set(sent) != {'rule', 'target', 'credentials'}:
         key = 'request-carries-wrong-rule-name' if 'rule' in problems else 'request-payload-wrong'
@@ -267,9 +381,8 @@ def check_case(ctx, case):
         target = make_target(case, objs)
         snap0 = snapshot(target)
         roles = case['roles']
-        creds = {'roles': list(roles), 'user_id': 'u1', 'project_id': 'p', 'nested': {'a': [1, 2]}}
-        creds_sent = json.loads(json.dumps(creds))
-        expected_url = (case['scheme'] + '://srv' + case['path']) % target
+        creds, creds_sent, creds_open = make_creds(case, roles)
+        expected_url = fill_from_target(case['scheme'] + '://srv' + case['path'], target)
         body = case['body']
         bclass = classify_body(body)
         dbg = env.debug_logging() if case.get('debug') else None
@@ -295,7 +408,7 @@ def check_case(ctx, case):
         if dbg:
             dbg.__exit__(None, None, None)
         ctx.case(case, nontrivial=(bclass == 'deny' or fault != 'none'), stratum=case['s'])
-        if case.get('then_ctype') and fault == 'none' and not case.get('nested_opaque'):
+        if case.get('then_ctype') and fault == 'none' and not case.get('nested_opaque') and expected_url is not None:
             # the operator changes remote_content_type while the enforcer lives: the next request uses the new encoding
             conf.set_override('remote_content_type', case['then_ctype'], group='oslo_policy')
             with requests_mock.Mocker() as m2:
@@ -324,9 +437,17 @@ def check_case(ctx, case):
             ctx.unconstrained('opaque-object-below-top-level')
             ctx.count('nested_opaque_targets')
             return
+        if expected_url is None:
+            # a placeholder over a key that the target does not have (a key of the credentials only, say): there is no "rule's URL
+            # filled from the target"; the statement does not say what happens then - only that the target is left alone (above)
+            ctx.unconstrained('url-placeholder-not-in-target')
+            ctx.count('url_placeholders_not_in_target')
+            ctx.observe('url_placeholder_not_in_target_outcomes',
+                        '%s, %d request(s)' % (type(exc).__name__ if exc else 'returned %r' % bool(got), len(reqs)))
+            return
         # ---- faults, the request, the decision: the per-call oracle -------------
         judge_call(ctx, case, case, fault=fault, tls_fault=tls_fault, got=got, exc=exc, reqs=reqs, target=target,
-                   creds_sent=creds_sent, expected_url=expected_url, ref=ref, rules=rules, roles=roles)
+                   creds_sent=creds_sent, expected_url=expected_url, ref=ref, rules=rules, roles=roles, creds_open=creds_open)
     finally:
         if tmpdir:
             import shutil
@@ -398,9 +519,8 @@ def check_sequence(ctx, case):
             objs = []
             target = make_target(case, objs)
             snap0 = snapshot(target)
-            creds = {'roles': list(roles), 'user_id': 'u1', 'project_id': 'p', 'nested': {'a': [1, 2]}}
-            creds_sent = json.loads(json.dumps(creds))
-            expected_url = (case['scheme'] + '://srv' + case['path']) % target
+            creds, creds_sent, creds_open = make_creds(case, roles)
+            expected_url = fill_from_target(case['scheme'] + '://srv' + case['path'], target)
             with requests_mock.Mocker() as m:
                 kw = {}
                 if fault in TRANSPORT:
@@ -429,9 +549,12 @@ def check_sequence(ctx, case):
                 ctx.violation('callers-target-modified', case, dict(extra, target_after=repr(target)[:300]))
                 return
             call = dict(ctype=case['ctype'], name=case['name'], body=step['body'], status=step['status'])
+            if expected_url is None:
+                ctx.unconstrained('url-placeholder-not-in-target')       # not generated for sequences; see check_case
+                continue
             if judge_call(ctx, case, call, fault=fault, tls_fault=tls_fault, got=got, exc=exc, reqs=reqs, target=target,
                           creds_sent=creds_sent, expected_url=expected_url, ref=ref, rules=rules, roles=roles,
-                          pfx='sequence_', extra=extra):
+                          pfx='sequence_', extra=extra, creds_open=creds_open):
                 return
             sent_before = sent_before or bool(reqs)
             faulted_before = faulted_before or fault != 'none'
@@ -526,9 +649,17 @@ def check_overlap(ctx, case):
     conf = env.fresh_conf(remote_content_type=case['ctype'])
     enf = policy.Enforcer(conf, use_conf=False)
     rules = {}
+    want_creds = {}
     for tag in 'ab':
         sub = case[tag]
         text = '%s://srv/%s/%%(name)s/%s' % (sub['scheme'], tag, 'yes' if sub['allow'] else 'no')
+        # further URL segments over keys that the target of this request shares with its credentials (other values)
+        text += ''.join('/' + ph(k) for k in sub.get('keys', []))
+        if sub.get('cform') == 'context':
+            from oslo_context import context
+            want_creds[tag] = json.loads(json.dumps(dict(context.RequestContext(**copy.deepcopy(sub['creds'])).to_policy_values())))
+        else:
+            want_creds[tag] = sub['creds']
         if sub['wrap'] == 'alias':
             rules['alias_' + tag] = text
             text = 'rule:alias_' + tag
@@ -539,6 +670,7 @@ def check_overlap(ctx, case):
         rules['pol:' + tag] = text
     enf.set_rules(policy.Rules.from_dict(rules))
     problems = []
+    seen_shared = []
 
     def server(request, context):
         try:
@@ -555,8 +687,19 @@ def check_overlap(ctx, case):
                 bad.append(['rule', sent.get('rule'), 'pol:' + tag])
             if sent.get('target') != want['target'] or name != want['target']['name']:
                 bad.append(['target', sent.get('target'), name, want['target']])
-            if sent.get('credentials') != want['creds']:
-                bad.append(['credentials', sent.get('credentials'), want['creds']])
+            segs = [urllib.parse.unquote(p) for p in parts[3:]]
+            if segs != ['%s' % (want['target'][k],) for k in want.get('keys', [])]:
+                # not the rule's URL filled from the target that the payload carries
+                bad.append(['url', request.url, want.get('keys', []), want['target']])
+            sc = sent.get('credentials')
+            if want.get('cform') == 'context':
+                # all policy values of the context; keys next to them are not the statement's business
+                if not isinstance(sc, dict) or not all(k in sc and sc[k] == v for k, v in want_creds[tag].items()):
+                    bad.append(['credentials', sc, want_creds[tag]])
+            elif sc != want_creds[tag]:
+                bad.append(['credentials', sc, want_creds[tag]])
+            if want.get('keys'):
+                seen_shared.append(tag)
             if bad:
                 problems.append(bad)
                 return 'False'
@@ -569,6 +712,9 @@ def check_overlap(ctx, case):
         def make():
             sub = case[tag]
             t, c = copy.deepcopy(sub['target']), copy.deepcopy(sub['creds'])
+            if sub.get('cform') == 'context':
+                from oslo_context import context
+                c = context.RequestContext(**c)
             def run_():
                 try:
                     return ['returned', bool(enf.enforce('pol:' + tag, t, c))]
@@ -587,19 +733,40 @@ def check_overlap(ctx, case):
             got = [mk('a')()(), mk('b')()()]
             if got != want:
                 ctx.violation('True-body-denies' if [g[1] for g in got if g[0] == 'returned'] != [w[1] for w in want] and not problems
-                              else 'request-payload-wrong', case, dict(detail, observed=got, inconsistencies=problems[:2]))
+                              else wrong(problems), case, dict(detail, observed=got, inconsistencies=problems[:2]))
                 return
     ctx.count('requests_recorded', n)
+    ctx.count('overlap_requests_with_url_keys_shared_by_target_and_credentials', len(seen_shared))
     if problems:
-        ctx.violation('request-payload-wrong', case, dict(detail, inconsistencies=problems[:2]))
+        ctx.violation(wrong(problems), case, dict(detail, inconsistencies=problems[:2]))
+
+
+def wrong(problems):
+    """Mechanism key for what the stub server of the overlap stratum found inconsistent."""
+    kinds = set(b[0] for bad in problems if isinstance(bad, list) for b in bad if isinstance(b, list))
+    return 'request-to-wrong-url' if kinds == {'url'} else 'request-payload-wrong'
+
+
+OVERLAP_KEYS = ['project_id', 'user_id', 'domain_id', 'user_domain_id']
 
 
 def gen_overlap(ctx, i):
     r = ctx.sub_rnd('O', ctx.tier, ctx.shard, i)
+    k = ctx.sub_rnd('OK', ctx.tier, ctx.shard, i)         # its own stream: the pairs stay what they were
     def sub(tag):
-        return dict(scheme=r.choice(['http', 'https']), allow=r.random() < 0.6, wrap=r.choice(['none', 'alias', 'not-not', 'and']),
-                    target={'name': tag + r.choice(['1', 'x y', 'é', 'n-1']), 'id': r.randint(1, 9), 'nested': {'k': [tag, {'z': None}]}},
-                    creds={'roles': [tag + 'role'], 'user_id': 'user-' + tag, 'project_id': 'p' + tag})
+        d = dict(scheme=r.choice(['http', 'https']), allow=r.random() < 0.6, wrap=r.choice(['none', 'alias', 'not-not', 'and']),
+                 target={'name': tag + r.choice(['1', 'x y', 'é', 'n-1']), 'id': r.randint(1, 9), 'nested': {'k': [tag, {'z': None}]}},
+                 creds={'roles': [tag + 'role'], 'user_id': 'user-' + tag, 'project_id': 'p' + tag})
+        # keys that the target shares with the credentials (a dict / a RequestContext), some of them in the URL
+        d['cform'] = k.choice(['dict', 'context'])
+        shared = k.sample(OVERLAP_KEYS, k.randint(1, 3))
+        for key in shared:
+            d['target'][key] = '%s-of-target-%s' % (key, tag)
+            d['creds'].setdefault(key, '%s-of-caller-%s' % (key, tag))
+        d['keys'] = [key for key in shared if k.random() < 0.7]
+        if k.random() < 0.3:
+            d['keys'].insert(k.randrange(len(d['keys']) + 1), 'id')        # a key of the target only
+        return d
     return dict(overlap=True, a=sub('a'), b=sub('b'), ctype=r.choice(CTYPES), rseed='%s.%d.%d' % (ctx.tier, ctx.shard, i))
 
 
@@ -624,6 +791,8 @@ def run(ctx):
                         done = False
                         break
                     case = base_case(body=body, status=status, ctype=ctype, scheme=scheme, tls=(idx % 5 == 0))
+                    if b_share(idx):
+                        case.update(copy.deepcopy(b_share(idx)))     # path templates over keys that target and credentials share
                     check_case(ctx, case)
                     if idx % 400 == 0:
                         ctx.sample(case, 'B')
@@ -646,10 +815,13 @@ def run(ctx):
                 if ctx.expired():
                     break
                 case = dict(sc, ctype=ctype, wraps=list(wraps), roles=['a', 'b'] if wraps else ['a'])
+                if b_share(idx):
+                    case.update(copy.deepcopy(b_share(idx)))
                 check_sequence(ctx, case)
                 if idx % 40 == 0:
                     ctx.sample(case, 'S')
     rnd = ctx.rnd
+    krnd = ctx.sub_rnd('K', ctx.tier, ctx.shard)        # its own stream: the cases of R stay what they were
     for i in range(N[ctx.tier] // ctx.nshards + 1):
         if ctx.expired():
             break
@@ -660,16 +832,22 @@ def run(ctx):
                     roles=[r for r in 'ab' if rnd.random() < 0.5], opaque=rnd.random() < 0.5, tls=rnd.random() < 0.4,
                     then_ctype=rnd.choice([None, None] + CTYPES), secrets=rnd.random() < 0.4, debug=rnd.random() < 0.4,
                     nested_opaque=rnd.random() < 0.1)
+        if krnd.random() < 0.5:
+            case.update(gen_share(krnd))
         check_case(ctx, case)
         if i % 150 == 0:
             ctx.sample(case, 'R')
     ctx.stratum('R', exhaustive=False)
     # fault sequences on one living enforcer: random ones
     srnd = ctx.sub_rnd('S', ctx.tier, ctx.shard)
+    skrnd = ctx.sub_rnd('SK', ctx.tier, ctx.shard)
     for i in range(SEQS[ctx.tier] // ctx.nshards + 1):
         if ctx.expired():
             break
-        check_sequence(ctx, gen_sequence(srnd))
+        case = gen_sequence(srnd)
+        if skrnd.random() < 0.5:
+            case.update(gen_share(skrnd, conly_p=0))
+        check_sequence(ctx, case)
     ctx.stratum('S', exhaustive=False)
     # two overlapping requests, last (the line-level scheduler slows everything that runs after it is installed)
     from pv.mon import sched
